@@ -487,6 +487,28 @@ func (w *Workspace) structuralC19() *FuncResult {
 				}
 			}
 		}
+		// a helper that only opens a table's store and hands it back makes its callers openers of that table
+		for _, fn := range fns {
+			top := fn
+			for top.Parent() != nil {
+				top = top.Parent()
+			}
+			for _, c := range callees[top] {
+				if c != top && !writes[c] && !readsAll[c] && returnsStore(c) {
+					for _, p := range prefixes[c] {
+						dup := false
+						for _, q := range prefixes[top] {
+							if q == p {
+								dup = true
+							}
+						}
+						if !dup {
+							prefixes[top] = append(prefixes[top], p)
+						}
+					}
+				}
+			}
+		}
 		reach := func(root *ssa.Function) map[*ssa.Function]bool {
 			out := map[*ssa.Function]bool{}
 			var visit func(fn *ssa.Function)
@@ -1150,6 +1172,22 @@ func (w *Workspace) structuralC11Frames() *FuncResult {
 				callees[fn] = append(callees[fn], a)
 			}
 		}
+		// a helper that only opens the table's store and hands it back (`func (k Keeper) feedStore(ctx) prefix.Store`)
+		// makes its callers openers of the table
+		for changed := true; changed; {
+			changed = false
+			for _, fn := range fns {
+				if opens[fn] {
+					continue
+				}
+				for _, c := range callees[fn] {
+					if opens[c] && !writes[c] && returnsStore(c) {
+						opens[fn] = true
+						changed = true
+					}
+				}
+			}
+		}
 		nWriters := 0
 		for _, fn := range fns {
 			if opens[fn] && writes[fn] {
@@ -1287,4 +1325,14 @@ func (w *Workspace) structuralPins(prop string, relied []string) *FuncResult {
 		res.Obls = append(res.Obls, structural(k, "trusted_contract_matches_the_body_it_was_written_for", []string{prop}, ok, why))
 	}
 	return res
+}
+
+// returnsStore: the function's (single) result is a store handle
+func returnsStore(fn *ssa.Function) bool {
+	rs := fn.Signature.Results()
+	if rs.Len() != 1 {
+		return false
+	}
+	t := rs.At(0).Type().String()
+	return strings.HasSuffix(t, "store/prefix.Store") || strings.HasSuffix(t, "types.KVStore") || strings.HasSuffix(t, "store/types.KVStore")
 }
